@@ -740,26 +740,8 @@ func vfOracleC16(run *vfProdRun) *vfcore.Failure {
 			outOf[o.Idx] = o
 		}
 	}
-	// nothing but latency happens in these cases (no failing answers, and - checked here - no leader move or broker bounce in
-	// the script): a message that is within every limit has no reason to fail
-	calm := true
-	for _, st := range c.Script {
-		if st.Op == "moveLeader" || st.Op == "brokerDown" || st.Op == "leaderless" {
-			calm = false
-		}
-	}
-	for _, l := range c.Faults {
-		for _, f := range l {
-			if f.Kind != "ok" || f.MoveLeader != "" {
-				calm = false
-			}
-		}
-	}
-	for _, e := range v.events {
-		if e.Kind == "client-conn-error" {
-			calm = false // a held answer outlasted the client's read timeout: the producer saw a connection-level failure
-		}
-	}
+	// nothing but latency happens in a calm run: a message that is within every limit has no reason to fail
+	calm := run.calm()
 	maxReqLimit := int64(MaxRequestSize)
 	if c.Conf.MaxRequestSize > 0 {
 		maxReqLimit = int64(c.Conf.MaxRequestSize)
